@@ -18,6 +18,7 @@
 (*           "impl_D9"   as coded on NumPy >= 2: the call helper raises (np.product is gone),    *)
 (*                       so no record is ever produced                                            *)
 (*           "split_ge"  seeded deviation: splits at gaps >= max_N_span and forgets the gap       *)
+(*           "umi_max"   seeded deviation: the molecule's UMI is the largest one seen, not the most common *)
 (*           "tf_no_overflow"  seeded deviation: the record's TF tag leaves out the fragments    *)
 (*                       refused because of max_associated_fragments (the source reads count them)*)
 EXTENDS Integers, FiniteSets, Sequences, TLC, Util
@@ -27,6 +28,7 @@ CONSTANTS Pos,        \* reference positions 1..P (a set; must be an interval st
           Quals,      \* subset of {10, 20, 30}
           MaxReads,
           Refs,       \* set of reference sequences (Seq over {"A","C","G","T"}) of length P
+          UMIs,       \* UMIs a fragment can carry (integers in the model)
           Cap,        \* max_associated_fragments (0 stands for None): further fragments are refused and counted as overflow
           MaxNs1,     \* values of max_N_span + 1; 0 stands for None (a .cfg cannot hold -1)
           Variant
@@ -75,18 +77,35 @@ Count(bag, b) == Cardinality({ i \in DOMAIN bag : bag[i][1] = b })
 EqualQ(bag) == \A i, j \in DOMAIN bag : bag[i][2] = bag[j][2]
 
 (* (i) all qualities equal and >= 10: strict plurality, tie -> N.  (ii) at most two observations with
-   qualities in {10,20,30}: the better one wins, equal quality and different bases -> N.            *)
+   qualities in {10,20,30}: the better one wins, equal quality and different bases -> N.
+   (iii) low qualities, exact without real arithmetic: the error probability e = 10^(-q/10) is >= 1/2 iff
+   10^q <= 2^10 = 1024 iff q <= 3 (LowQLemma below).  The caller compares the likelihood of a base,
+   prod over its observations of (1 - e_i) * 4^(n_b - 1), with that of the pseudo-base N, prod over ALL observations of
+   e_i * 4^(n - 1).  If every observation has q <= 3 then every e_i > 1/2 > 1 - e_i and N wins whatever was seen;
+   if only ONE distinct base was seen and every q >= 4 then every 1 - e_i > e_i and that base wins.  A single base
+   with qualities on both sides of the threshold is left undecided.                                              *)
+AllLow(bag)  == \A i \in DOMAIN bag : bag[i][2] <= 3
+AllHigh(bag) == \A i \in DOMAIN bag : bag[i][2] >= 4
+OneBase(bag) == Cardinality(BasesIn(bag)) = 1
 Decidable(bag0) == LET bag == Informative(bag0) IN
     \/ bag = <<>>
+    \/ AllLow(bag)
+    \/ (OneBase(bag) /\ AllHigh(bag))
     \/ (EqualQ(bag) /\ bag[1][2] >= 10)
     \/ (Len(bag) <= 2 /\ \A i \in DOMAIN bag : bag[i][2] \in {10, 20, 30})
 CallP(bag0) == LET bag == Informative(bag0) IN
     IF bag = <<>> THEN "N"
+    ELSE IF AllLow(bag) THEN "N"
+    ELSE IF OneBase(bag) THEN bag[1][1]
     ELSE IF EqualQ(bag) THEN
         LET W == { b \in BasesIn(bag) : \A o \in BasesIn(bag) \ {b} : Count(bag, b) > Count(bag, o) }
         IN IF W = {} THEN "N" ELSE CHOOSE b \in W : TRUE
     ELSE \* two observations, different qualities
         IF bag[1][2] > bag[2][2] THEN bag[1][1] ELSE bag[2][1]
+(* 10^(-q/10) >= 1/2  <=>  10^q <= 2^10, checked over the whole phred range in integers *)
+RECURSIVE IntPow10(_)
+IntPow10(q) == IF q = 0 THEN 1 ELSE 10 * IntPow10(q - 1)
+LowQLemma == \A q \in 0 .. 9 : (IntPow10(q) <= 1024) <=> (q <= 3)
 
 (* "most likely" in exact integers.  q = 10k  =>  P(correct) = (10^k - 1)/10^k, an error goes to each of
    the three other bases with (1/10^k)/3.  Likelihood of base b, times 3^n * 10^(sum k):
@@ -115,7 +134,12 @@ Inv_Call(recs, conf) ==
         LET pos == RecPositions(recs[i]) IN
         \A k \in DOMAIN pos : (pos[k] \in DOMAIN conf /\ k <= Len(recs[i].seq) /\ Decidable(conf[pos[k]]))
                                 => recs[i].seq[k] = CallP(conf[pos[k]])
-Inv_Tags(recs, mol) == \A i \in DOMAIN recs : recs[i].tags = mol
+(* the molecule's UMI is the most common UMI of its fragments; with a tie either of the tied ones *)
+CountOf(U, u) == Cardinality({ i \in DOMAIN U : U[i] = u })
+ModeSet(U) == { u \in SeqSet(U) : \A v \in SeqSet(U) : CountOf(U, u) >= CountOf(U, v) }
+Inv_Tags(recs, mol, U) == \A i \in DOMAIN recs :
+    /\ recs[i].tags.SM = mol.SM /\ recs[i].tags.DS = mol.DS /\ recs[i].tags.TF = mol.TF
+    /\ recs[i].tags.RX \in ModeSet(U)
 
 ---------------------------------------------------------------------------------------------------
 (* D-level *)
@@ -147,6 +171,7 @@ VARIABLES ref,      \* the reference sequence
           strand,   \* molecule strand
           nfrag,    \* number of fragments (a fragment has one or two reads)
           nreads,
+          umis,     \* UMIs of the accepted fragments in arrival order (Molecule.umi_counter)
           overflow, \* fragments refused by max_associated_fragments (Molecule.overflow_fragments)
           open,     \* TRUE when the last fragment can still take a second read
           conf,     \* get_base_confidence_dict: position -> observations in arrival order
@@ -154,32 +179,37 @@ VARIABLES ref,      \* the reference sequence
           calls,    \* position -> called base
           cigar, ix, refpos, refstart, refend, pCigar, pSeq,     \* generate_partial_reads locals
           recs, raised
-vars == <<ref, maxN, strand, nfrag, nreads, overflow, open, conf, pc, calls, cigar, ix, refpos, refstart, refend, pCigar, pSeq, recs, raised>>
+vars == <<ref, maxN, strand, nfrag, nreads, umis, overflow, open, conf, pc, calls, cigar, ix, refpos, refstart, refend, pCigar, pSeq, recs, raised>>
 
 (* the molecule's fragment count as written on its source reads by write_tags: associated + overflow *)
-MolTags == [SM |-> "cell", RX |-> "UMI", DS |-> 7, TF |-> nfrag + overflow]
+MolTags == [SM |-> "cell", DS |-> 7, TF |-> nfrag + overflow]
+(* update_umi: umi_counter.most_common(1) - the highest count, the earliest seen among equals *)
+UmiD == IF Variant = "umi_max" THEN MaxOf(SeqSet(umis))
+        ELSE LET first(u) == MinOf({ i \in DOMAIN umis : umis[i] = u })
+             IN CHOOSE u \in ModeSet(umis) : \A v \in ModeSet(umis) : first(u) <= first(v)
 (* write_tags_to_psuedoreads *)
-RecTags == [SM |-> "cell", RX |-> "UMI", DS |-> 7, TF |-> IF Variant = "tf_no_overflow" THEN nfrag ELSE nfrag + overflow]
+RecTags == [SM |-> "cell", RX |-> UmiD, DS |-> 7, TF |-> IF Variant = "tf_no_overflow" THEN nfrag ELSE nfrag + overflow]
 
 Reads == UNION { { [ p \in s .. e |-> <<bb[p], q>> ] : bb \in [ s .. e -> ReadBases ], q \in Quals }
                  : <<s, e>> \in { x \in Pos \X Pos : x[1] <= x[2] } }
 
 Init == /\ ref \in Refs /\ maxN \in { x - 1 : x \in MaxNs1 } /\ strand \in BOOLEAN
-        /\ nfrag = 0 /\ nreads = 0 /\ overflow = 0 /\ open = FALSE
+        /\ nfrag = 0 /\ nreads = 0 /\ umis = <<>> /\ overflow = 0 /\ open = FALSE
         /\ conf = [ p \in Pos |-> <<>> ]
         /\ pc = "collect" /\ calls = <<>> /\ cigar = <<>> /\ ix = 1
         /\ refpos = 0 /\ refstart = 0 /\ refend = 0 /\ pCigar = <<>> /\ pSeq = <<>>
         /\ recs = <<>> /\ raised = FALSE
 
 (* get_base_confidence_dict, one read: obs[(chrom, rpos)][qbase].append(confidence) *)
-AddRead(r, second) ==
+AddRead(r, second, u) ==
     /\ pc = "collect" /\ nreads < MaxReads
-    /\ second => open
+    /\ second => (open /\ u = MinOf(UMIs))          \* the UMI belongs to the fragment, not to its second mate
     /\ nreads' = nreads + 1
     /\ IF ~second /\ Cap > 0 /\ nfrag >= Cap
        THEN \* Molecule._add_fragment: overflow_fragments += 1; raise OverflowError - the fragment (both mates) stays out
-            /\ overflow' = overflow + 1 /\ open' = FALSE /\ UNCHANGED <<nfrag, conf>>
+            /\ overflow' = overflow + 1 /\ open' = FALSE /\ UNCHANGED <<nfrag, conf, umis>>
        ELSE /\ nfrag' = IF second THEN nfrag ELSE nfrag + 1
+            /\ umis' = IF second THEN umis ELSE Append(umis, u)        \* umi_counter[fragment.umi] += 1; update_umi()
             /\ open' = ~second
             /\ conf' = [ p \in Pos |-> IF p \in DOMAIN r THEN Append(conf[p], r[p]) ELSE conf[p] ]
             /\ UNCHANGED overflow
@@ -188,7 +218,7 @@ AddRead(r, second) ==
 EndCollect ==
     /\ pc = "collect" /\ nfrag > 0
     /\ pc' = "call"
-    /\ UNCHANGED <<ref, maxN, strand, nfrag, nreads, overflow, open, conf, calls, cigar, ix, refpos, refstart, refend, pCigar, pSeq, recs, raised>>
+    /\ UNCHANGED <<ref, maxN, strand, nfrag, nreads, umis, overflow, open, conf, calls, cigar, ix, refpos, refstart, refend, pCigar, pSeq, recs, raised>>
 
 (* obs = {position: phredscores_to_base_call(probs) ...} *)
 CallAll ==
@@ -197,7 +227,7 @@ CallAll ==
        THEN /\ raised' = TRUE /\ pc' = "done" /\ UNCHANGED calls      \* AttributeError: numpy has no attribute 'product'
        ELSE /\ calls' = [ p \in Covered(conf) |-> CallD(conf[p]) ]
             /\ pc' = "cigar" /\ UNCHANGED raised
-    /\ UNCHANGED <<ref, maxN, strand, nfrag, nreads, overflow, open, conf, cigar, ix, refpos, refstart, refend, pCigar, pSeq, recs>>
+    /\ UNCHANGED <<ref, maxN, strand, nfrag, nreads, umis, overflow, open, conf, cigar, ix, refpos, refstart, refend, pCigar, pSeq, recs>>
 
 (* get_CIGAR: M for every aligned block, N between consecutive blocks *)
 RECURSIVE CigarOf(_, _)
@@ -211,7 +241,7 @@ BuildCigar ==
     /\ cigar' = CigarOf(BlocksOf(Covered(conf)), -1)
     /\ refpos' = MinOf(Covered(conf)) /\ refstart' = MinOf(Covered(conf))
     /\ ix' = 1 /\ pc' = "walk"
-    /\ UNCHANGED <<ref, maxN, strand, nfrag, nreads, overflow, open, conf, calls, refend, pCigar, pSeq, recs, raised>>
+    /\ UNCHANGED <<ref, maxN, strand, nfrag, nreads, umis, overflow, open, conf, calls, refend, pCigar, pSeq, recs, raised>>
 
 (* the record get_dedup_reads / get_consensus_read build from one yield of generate_partial_reads *)
 MRef(start, ops) == LET pos == MPositions(ops, 1, start) IN [ k \in DOMAIN pos |-> ref[pos[k]] ]
@@ -239,15 +269,15 @@ StepOp ==
            /\ pSeq' = pSeq \o [ k \in 1 .. o.n |-> calls[refpos + k - 1] ]               \* extract_stretch_from_dict
            /\ UNCHANGED recs
     /\ ix' = ix + 1
-    /\ UNCHANGED <<ref, maxN, strand, nfrag, nreads, overflow, open, conf, pc, calls, cigar, raised>>
+    /\ UNCHANGED <<ref, maxN, strand, nfrag, nreads, umis, overflow, open, conf, pc, calls, cigar, raised>>
 
 Finish ==
     /\ pc = "walk" /\ ix > Len(cigar)
     /\ recs' = Append(recs, Record(refstart, refend, pCigar, pSeq))
     /\ pc' = "done"
-    /\ UNCHANGED <<ref, maxN, strand, nfrag, nreads, overflow, open, conf, calls, cigar, ix, refpos, refstart, refend, pCigar, pSeq, raised>>
+    /\ UNCHANGED <<ref, maxN, strand, nfrag, nreads, umis, overflow, open, conf, calls, cigar, ix, refpos, refstart, refend, pCigar, pSeq, raised>>
 
-Next == \/ \E r \in Reads, second \in BOOLEAN : AddRead(r, second)
+Next == \/ \E r \in Reads, second \in BOOLEAN, u \in UMIs : AddRead(r, second, u)
         \/ EndCollect \/ CallAll \/ BuildCigar \/ StepOp \/ Finish
 Spec == Init /\ [][Next]_vars
 
@@ -260,7 +290,7 @@ Inv_C15_Blocks == Done => Inv_Blocks(recs, conf)
 Inv_C15_Lens   == Done => Inv_Lens(recs)
 Inv_C15_MD     == Done => Inv_MD(recs, RefAt)
 Inv_C15_Call   == Done => Inv_Call(recs, conf)
-Inv_C15_Tags   == Done => (Inv_Tags(recs, MolTags) /\ \A i \in DOMAIN recs : recs[i].rev = strand)
+Inv_C15_Tags   == Done => (Inv_Tags(recs, MolTags, umis) /\ \A i \in DOMAIN recs : recs[i].rev = strand)
 
 (* design-level only (not part of the statement): records are cut exactly at gaps longer than max_N_span *)
 GapsIn(rec) == { rec.cigar[i].n : i \in { j \in DOMAIN rec.cigar : rec.cigar[j].op = "N" } }
@@ -274,5 +304,6 @@ Inv_D_Split == Done => /\ \A i \in DOMAIN recs : \A g \in GapsIn(recs[i]) : maxN
 ObsU == ReadBases \X Quals
 BagsUpTo(n) == UNION { [ 1 .. k -> ObsU ] : k \in 0 .. n }
 Inv_C15_CallLemma ==
-    \A bag \in BagsUpTo(MaxReads) : Decidable(bag) => (CallP(bag) = MLCall(bag) /\ CallD(bag) = CallP(bag))
+    /\ LowQLemma
+    /\    \A bag \in BagsUpTo(MaxReads) : Decidable(bag) => (CallP(bag) = MLCall(bag) /\ CallD(bag) = CallP(bag))
 =====================================================================================================
